@@ -105,6 +105,15 @@ pub struct Sc7 {
   pub newcomer: Option<usize>,
   #[serde(default)]
   pub newcomer_items: Vec<(usize, Item)>,
+  /// seconds of total silence between all participants (longer than the 10 s participant lease), after the main
+  /// traffic; afterwards everybody must find everybody again and traffic must flow; 0 = no partition
+  #[serde(default)]
+  pub partition_s: u64,
+  /// None = everybody is cut off from everybody; Some(p) = only participant p stops hearing the others
+  #[serde(default)]
+  pub partition_only: Option<usize>,
+  #[serde(default)]
+  pub healed_items: Vec<(usize, Item)>,
 }
 
 pub fn compatible(w: &EpSpec, r: &EpSpec) -> bool {
@@ -291,6 +300,15 @@ pub fn gen_scenario(rng: &mut Rng) -> Sc7 {
       newcomer_items.push((wi, ig.item(rng, wi, with_key, true)));
     }
   }
+  // one scenario in six: an outage longer than the 10 s lease (+2 s cleanup period), total or one-sided
+  let (partition_s, partition_only, healed_items) = if rng.chance(1, 6) {
+    let only = if rng.chance(1, 2) { Some(rng.below(nparts as u64) as usize) } else { None };
+    let k = 2 + rng.below(4);
+    let items = (0..k).map(|_| { let wi = *rng.pick(&writers); (wi, ig.item(rng, wi, with_key, true)) }).collect();
+    (*rng.pick(&[13u64, 16]), only, items)
+  } else {
+    (0, None, vec![])
+  };
   Sc7 {
     with_key,
     nparts,
@@ -306,6 +324,9 @@ pub fn gen_scenario(rng: &mut Rng) -> Sc7 {
     after,
     newcomer,
     newcomer_items,
+    partition_s,
+    partition_only,
+    healed_items,
   }
 }
 
@@ -374,6 +395,8 @@ pub struct Out7 {
   pub best_effort_order_anomalies: u64,
   pub newcomers: u64,
   pub ghost_matches: u64,
+  pub partitions: u64,
+  pub pairs_lost_in_partition: u64,
 }
 
 fn gb(g: rustdds::GUID) -> [u8; 16] {
@@ -699,6 +722,8 @@ pub fn run_scenario(sc: &Sc7, domain: u16, acc: &mut Acc, tag: &Value, uniq: u64
     best_effort_order_anomalies: 0,
     newcomers: 0,
     ghost_matches: 0,
+    partitions: 0,
+    pairs_lost_in_partition: 0,
   };
   let replay = json!({"case": tag, "scenario": scenario_json(sc)});
   let nparts_total = sc.eps.iter().map(|e| e.part + 1).max().unwrap_or(0).max(sc.nparts + usize::from(sc.late_new_part));
@@ -717,6 +742,7 @@ pub fn run_scenario(sc: &Sc7, domain: u16, acc: &mut Acc, tag: &Value, uniq: u64
     ($why:expr) => {{
       acc.inconclusive.push(format!("C07 scenario {}: {}", tag["index"], $why));
       net::set_policy_pass();
+      net::set_rx_isolation(false);
       return out;
     }};
   }
@@ -724,6 +750,7 @@ pub fn run_scenario(sc: &Sc7, domain: u16, acc: &mut Acc, tag: &Value, uniq: u64
     ($sig:expr, $detail:expr) => {{
       acc.violate($sig, $detail, replay.clone());
       net::set_policy_pass();
+      net::set_rx_isolation(false);
       return out;
     }};
   }
@@ -818,6 +845,49 @@ pub fn run_scenario(sc: &Sc7, domain: u16, acc: &mut Acc, tag: &Value, uniq: u64
     violate!(v.0, v.1);
   }
   net::set_policy_pass();
+
+  // ---- P: partition longer than the lease, then heal
+  if sc.partition_s > 0 {
+    match sc.partition_only {
+      None => net::set_rx_isolation(true),
+      Some(p) => match w.parts[p].dp.as_ref() {
+        Some(dp) => net::set_rx_isolation_of(&[rustdds::verif::disc::participant_prefix(dp)]),
+        None => net::set_rx_isolation(true),
+      },
+    }
+    w.pump_for(sc.partition_s * 1000);
+    // every cross-participant pair must have been unmatched by lease expiry (that is C12's business; here it is
+    // only recorded), and after the heal everybody must be matched with everybody again
+    let lost_pairs = initial.iter().flat_map(|a| initial.iter().map(move |b| (*a, *b))).filter(|(a, b)| compatible(&sc.eps[*a], &sc.eps[*b]) && sc.eps[*a].part != sc.eps[*b].part && !w.eps[*a].matched.contains_key(&w.eps[*b].guid)).count();
+    out.pairs_lost_in_partition += lost_pairs as u64;
+    net::set_rx_isolation(false);
+    let ini = initial.clone();
+    match w.wait_until(T_MATCH_S, &move |w| w.all_matched(&ini)) {
+      Some(s) => out.max_match_s = out.max_match_s.max(s),
+      None => {
+        let missing = w.missing_matches(&initial);
+        violate!("C07/match:pair-not-matched-again-after-partition-healed".to_string(), json!({"bound_s": T_MATCH_S, "partition_s": sc.partition_s, "one_sided": sc.partition_only, "pairs_unmatched_during_partition": lost_pairs, "missing": missing}));
+      }
+    }
+    // what was written before the re-match is history for the re-matched pairs
+    for &a in &initial {
+      for &b in &initial {
+        if compatible(&sc.eps[a], &sc.eps[b]) && sc.eps[a].part != sc.eps[b].part {
+          pre_match.insert((a, b), w.sent[a].len());
+        }
+      }
+    }
+    for (i, it) in &sc.healed_items {
+      if let Err(e) = w.write_item(*i, it) {
+        abort!(format!("write after heal failed: {e}"));
+      }
+      w.pump();
+    }
+    if let Err(v) = sync_point(&mut w, sc, &initial, &pre_match, "after-partition-healed", &mut out) {
+      violate!(v.0, v.1);
+    }
+    out.partitions += 1;
+  }
 
   // ---- D: late joiner
   let late = sc.late;
